@@ -180,6 +180,8 @@ class PushSocketModel:
         if ex.decide(z3.Bool(f'push_again#{len(ex.conds)}')):
             raise ExcSig('Again', 'push.send_multipart')
         o.f['log'].append((o.f['_k'], list(msg)) if o.f.get('tagged') else list(msg))
+        if o.f.get('owner') is not None:       # ghost: what the consumer knew about this source when it sent the request
+            ex.__dict__.setdefault('push_ghost', []).append((o.f['_k'], list(msg), o.f['owner'].f.get('conn')))
 
 
 class ZmqModule:
@@ -233,18 +235,33 @@ def install(ex):
         # derived rule: `for t in <symbolic set>: [logging-only ifs] ; del D[t]`   ==>   D.keys := D.keys \ it
         if not isinstance(it, SSet):
             return NOTHANDLED
-        last = s.body[-1]
-        if not (isinstance(last, ast.Delete) and isinstance(last.targets[0], ast.Subscript)):
+        # every statement of the body must be logging-only, `del D[t]`, or `D.pop(t, None)` with t the loop variable
+        tv = s.target.id if isinstance(s.target, ast.Name) else None
+        dels = []
+        for b in s.body:
+            if isinstance(b, ast.If) and all(isinstance(x, ast.Expr) and isinstance(x.value, ast.Call) for x in b.body) and not b.orelse:
+                continue
+            if isinstance(b, ast.Delete) and len(b.targets) == 1 and isinstance(b.targets[0], ast.Subscript) \
+                    and isinstance(b.targets[0].slice, ast.Name) and b.targets[0].slice.id == tv:
+                dels.append((b.targets[0].value, True))
+                continue
+            if isinstance(b, ast.Expr) and isinstance(b.value, ast.Call) and isinstance(b.value.func, ast.Attribute) and b.value.func.attr == 'pop' \
+                    and len(b.value.args) == 2 and isinstance(b.value.args[0], ast.Name) and b.value.args[0].id == tv:
+                dels.append((b.value.func.value, False))
+                continue
             raise Unsupported('for over a symbolic set: body is not the delete-each pattern')
-        for b in s.body[:-1]:
-            if not (isinstance(b, ast.If) and all(isinstance(x, ast.Expr) and isinstance(x.value, ast.Call) for x in b.body) and not b.orelse):
-                raise Unsupported('for over a symbolic set: only logging is allowed before the delete')
-        d = ex_.ev(last.targets[0].value, env)
-        if isinstance(d, OptV):
-            d = d.val
+        if not dels:
+            raise Unsupported('for over a symbolic set: body is not the delete-each pattern')
         q = z3.Const('q!d', Topic)
-        ex_.implicit('KeyError del recvd[t]', z3.ForAll([q], z3.Implies(it.arr[q], d.keys[q])), 'KeyError')
-        d.keys = z3.Lambda([q], z3.And(d.keys[q], z3.Not(it.arr[q])))
+        for node, strict in dels:
+            d = ex_.ev(node, env)
+            if isinstance(d, OptV):
+                d = d.val
+            if not isinstance(d, SDict):
+                raise Unsupported('for over a symbolic set: delete from a non-symbolic dict')
+            if strict:
+                ex_.implicit('KeyError del recvd[t]', z3.ForAll([q], z3.Implies(it.arr[q], d.keys[q])), 'KeyError')
+            d.keys = z3.Lambda([q], z3.And(d.keys[q], z3.Not(it.arr[q])))
         return True
     ex.for_hook = for_hook
 
